@@ -9,7 +9,7 @@ R-C07-4  range guard: for every statement of the batch and every Some promise, `
 from bpsa.facts import callee_decl, callee_name
 from bpsa.normal import canon
 from bpsa.terms import walk, short, TERM_IDX
-from .common import guard_table
+from .common import guard_table, unconditional
 from . import wire, msm, msm_pairs
 
 LEVEL_TEXT = ('Static analysis (transcript trace, def-use of the verifier\'s accumulators, guard normal forms). Decides that each promise is bound into the '
@@ -47,6 +47,7 @@ def run(ctx):
     if p is not None:
         rows = guard_table(ctx, p)
         sub = [r for r in rows for a in r['atoms'] if a[0] == 'succ' and a[1].startswith('checked_sub(each(p3.openings).v,each(p2.minimum_value_promises))') and r['eff'] != 'bypass'
+               and unconditional(r, (('succ', 'each(p2.minimum_value_promises)'),))
                and any(x[0] == 'forall' and 'minimum_value_promises' in x[1] and 'openings' in x[1] and 'skip(' not in x[1] and 'take(' not in x[1] for x in r['ctx'])]
         rep.check(bool(sub), 'R-C07-3', 'R-C07-3/prover/checked-sub', 'the prover refuses value < promise for every (promise, value) pair (checked_sub)',
                   'no guard over every (promise, value) pair performs value.checked_sub(promise)', ctx.where(p, sub[0]['guard'].bb) if sub else ctx.where(p))
@@ -61,7 +62,7 @@ def run(ctx):
     # ---- R-C07-4
     cons = msm.consistency_fn(ctx, 'R-C07-4')
     if cons is not None:
-        rows = guard_table(ctx, cons)
+        rows = guard_table(ctx, cons, deep=True)
         hits = []
         for r in rows:
             for a in r['atoms']:
@@ -73,7 +74,9 @@ def run(ctx):
             fa = [x[1] for x in r['ctx'] if x[0] == 'forall']
             every_stmt = any(('enumerate(p1)' == f or f == 'p1') for f in fa)
             every_promise = any('minimum_value_promises' in f and not any(b in f for b in ('skip(', 'take(', 'rev(')) for f in fa)
-            rep.check(every_stmt and every_promise and r['eff'] != 'bypass', 'R-C07-4', 'R-C07-4/range-guard/quantifier',
+            # the only condition on the path to the test is the `bits < 64` half of the guard itself
+            only_bits = unconditional(r, lambda x: x[0] == 'cmp' and x[1] == 'Le' and x[3].isdigit() and 'gens_capacity' in x[2])
+            rep.check(every_stmt and every_promise and only_bits and r['eff'] != 'bypass', 'R-C07-4', 'R-C07-4/range-guard/quantifier',
                       'the promise range guard covers every statement of the batch and every Some promise', 'the promise range guard ranges over %s' % fa, ctx.where(cons, r['guard'].bb))
             bits = "p1['first'].generators.bp_gens.gens_capacity"
             idiom = a[1] == 'Le' and a[3] == '0' and ' Shr ' in a[2]
